@@ -27,7 +27,7 @@ var nqLexParts = []string{
 	"퟿", "", "�", "\U00010000", "\U0010ffff", "日本語", "<", ">", "^^", "@en", "\\u0041", "_:b", " . ", "#",
 }
 
-var nqLangs = []string{"en", "EN", "en-US", "en-Latn-US", "zh-Hant-TW-x-private", "de-1996", "x-a", "i-klingon", "sr-Cyrl-RS-1-2"}
+var nqLangs = []string{"en", "EN", "en-US", "en-Latn-US", "zh-Hant-TW-x-private", "de-1996", "x-a", "i-klingon", "sr-Cyrl-RS-1-2", "ca-valencia", "en-x-abcdefgh", "abcdefgh", "a-b-c-d-e-f-g-h-i"}
 
 var nqDatatypes = []string{
 	xsdNS + "string", xsdNS + "integer", xsdNS + "decimal", xsdNS + "double", xsdNS + "boolean", xsdNS + "dateTime",
@@ -49,6 +49,16 @@ func nqGenIRI(r *hx.Rand) rdf.IRI {
 	for {
 		s, _ := c12Gen(r, true)
 		if validPct(s) {
+			if r.Chance(1, 4) { // ucschar / iprivate / boundary code points (RFC 3987), mostly in the query where iprivate is allowed
+				exotic := hx.Pick(r, []string{"\u007f", "\u0080", "\u00ff", "\u0100", "\u07ff", "\u0800", "\ud7ff", "\ue000", "\uf8ff", "\ufffd", "\U00010000", "\U0001F600", "\U000EFFFD", "\U000F0000", "\U000FFFFD", "\U00100000", "\U0010FFFD"})
+				if strings.Contains(s, "?") {
+					s = strings.Replace(s, "?", "?"+exotic, 1)
+				} else if i := strings.Index(s, "#"); i >= 0 {
+					s = s[:i] + "?k=" + exotic + s[i:]
+				} else {
+					s += "?k=" + exotic
+				}
+			}
 			return rdf.IRI(s)
 		}
 	}
